@@ -12,6 +12,7 @@ pub mod qcore;
 pub mod report;
 pub mod rng;
 pub mod vqdev;
+pub mod xport_any;
 pub mod xport_mmio;
 pub mod xport_model;
 pub mod xport_pci;
